@@ -92,6 +92,11 @@ static volatile uint64_t g_tick_case = ~0ull;
 static volatile long g_tick_inst = -2;
 static volatile int g_tick_same = 0;
 static volatile int g_hang_limit = 20;
+// after this many abandoned calls in one process the remaining cases of the current loop are skipped: a change that makes a
+// library function diverge on a whole class of inputs must end the run with its witnesses, not stall it for hours
+static volatile int g_hang_count = 0;
+static volatile int g_hang_budget = 6;
+static volatile int g_loops_cut_short = 0;
 static void tick_handler(int sig) {
     if (!g_armed || g_phase == PH_ORACLE) { g_tick_same = 0; return; }
     if (g_case == g_tick_case && g_inst == g_tick_inst) {
@@ -147,6 +152,7 @@ inline void note_trap() {
     g_trap_total = n + 1;
     int ph = g_phase;
     if (ph >= 0 && ph < 4) g_trap_by_phase[ph] = g_trap_by_phase[ph] + 1;
+    if (g_trap_sig == SIGVTALRM) g_hang_count = g_hang_count + 1;
     g_trapped = 0;
 }
 
@@ -161,7 +167,9 @@ __attribute__((noinline)) void run_loop(uint64_t start, uint64_t end, F &&body) 
         note_trap();
         g_phase = PH_ORACLE;
         i = i + 1;
+        if (g_hang_count >= g_hang_budget) { g_armed = 0; g_loops_cut_short = g_loops_cut_short + 1; return; }
     }
+    if (g_hang_count >= g_hang_budget) { g_loops_cut_short = g_loops_cut_short + 1; return; }
     g_armed = 1;
     for (; i < end; i = i + 1) {
         uint64_t cur = i;
